@@ -258,6 +258,9 @@ func solveOne(o *Obligation, dir string, timeoutS int, agree bool, seed int) {
 	if o.Cover && timeoutS > 2 {
 		timeoutS = 2
 	}
+	if o.ShortTimeout && timeoutS > 4 {
+		timeoutS = 4
+	}
 	if qfScript != "" && !strings.Contains(qfScript, "(forall ") {
 		// first attempt: hypotheses instantiated by the engine, no quantifier left for the solver
 		qt := timeoutS
